@@ -45,6 +45,9 @@ func genLossCfg(t *rapid.T, algos []string) LimitCfg {
 
 func genC06(t *rapid.T) c06Case {
 	c := c06Case{Cfg: genLossCfg(t, []string{"aimd", "vegas", "gradient"})}
+	if c.Cfg.Algo == "vegas" && rapid.IntRange(0, 4).Draw(t, "customNoLoad") == 0 {
+		c.Cfg.NoLoad = "single" // a caller-supplied baseline measurement (latest value): drops must still bring the limit down
+	}
 	if rapid.Bool().Draw(t, "hasPrefix") {
 		c.Prefix = genSamples(t, c.Cfg, 150)
 	}
